@@ -407,15 +407,18 @@ def main(tier, seed, only=None):
     if tier == "thorough":
         plan += [("pitch_trim", {"relaxation": 0.5}, True, "pitch_trim relaxed"), ("pitch_trim_using_orientation", {}, False, "orientation trim given targets"),
                  ("pitch_trim_using_orientation", {"relaxation": 0.5}, True, "orientation trim relaxed")]
+    tasks = []
     for which, kw, dflt, label in plan:
         if only and not any(o in label for o in only):
             continue
-        harness_trim(ck, which, kw, dflt, label)
+        tasks.append((label, lambda c, which=which, kw=kw, dflt=dflt, label=label: harness_trim(c, which, kw, dflt, label)))
     if not only or "missing" in only:
         for which in ("pitch_trim", "pitch_trim_using_orientation"):
-            harness_missing(ck, which)
+            tasks.append(("missing " + which, lambda c, which=which: harness_missing(c, which)))
     if not only or "ac" in only:
-        harness_ac(ck)
+        tasks.append(("aero_center", harness_ac))
+    from symx.harness import run_parallel
+    run_parallel(ck, tasks)
     ck.bound(aircraft="family member g5, N=8", loop_unrolling=2, state="all symbolic incl. targets", max_paths=24)
     ck.rung("rung 1: stub-level harness")
     return ck.finish()
